@@ -28,6 +28,10 @@ for _f in ('_get_block_vars', '_get_block_basic_vars', '_get_block_composite_var
 for _m in ('__init__', 'as_tuple', '__eq__', '__hash__', 'uses', 'call_options'):
   SCRIPTS['malt.core.converter.ConversionOptions.' + _m] = ('bounded/c20_roundtrip.py', ['--contracts'])
 
+for _f in ('_node_matches_argspec', '_arg_name'):
+  SCRIPTS['malt.pyct.parser.' + _f] = ('bounded/rt_argspec.py', ['0', 'quick'])
+SCRIPTS['malt.pyct.transpiler.GenericTranspiler._erase_arg_defaults'] = ('bounded/c09_interface.py', ['1', 'quick'])
+
 _cache = {}
 
 
